@@ -94,6 +94,7 @@ func cmdFunc(args []string) {
 	nosafe := fs.Bool("nosafety", false, "do not emit safety obligations")
 	dump := fs.Bool("dump", false, "print obligations")
 	seed := fs.Int("seed", 0, "solver seed")
+	view := fs.String("view", "", "property view")
 	fs.Parse(args)
 	t0 := time.Now()
 	pr, err := LoadProg(*repo, []string{filepath.Join(verifRoot(), "spec")})
@@ -131,7 +132,7 @@ func cmdFunc(args []string) {
 		for _, fk := range pr.FuncKeys {
 			if fk == k || (strings.HasSuffix(k, "*") && strings.HasPrefix(fk, strings.TrimSuffix(k, "*"))) {
 				matched = true
-				r := VerifyFunc(pr, eff, pr.Funcs[fk], VerifyOpts{NoSafety: *nosafe})
+				r := VerifyFunc(pr, eff, pr.Funcs[fk], VerifyOpts{NoSafety: *nosafe, View: *view})
 				reps = append(reps, r)
 				all = append(all, r.Obls...)
 			}
